@@ -65,6 +65,11 @@ def run(ck, rng, tier):
             else:           # a variable far from the origin compared with its spread (4e7 + [0, 30)), autoscaling
                 Xc[:, 1] = 4.0e7 + 30.0 * (Xc[:, 1] - Xc[:, 1].min()) / (Xc[:, 1].max() - Xc[:, 1].min() + 1e-300)
                 scaling = 1
+        if c == 5:
+            # autoscaling with a constant variable in the middle of a block (zeroed by the preprocessing)
+            nb, n, widths, tot, scaling = 3, max(n, 10), [3, 4, 2], 9, 1
+            Xc, s = c02.gen_separated(rng, n, tot, 1.0)
+            Xc[:, 1] = 2.5
         blocks, c0 = [], 0
         for w in widths:
             blocks.append(Xc[:, c0:c0 + w].copy())
@@ -73,7 +78,7 @@ def run(ck, rng, tier):
         nproc = rng.choice((1, 1, 2, 4, 8))
         if c == 0:
             npc, nproc = 4, 1
-        if c in (2, 3):
+        if c in (2, 3, 5):
             npc = 2
         # the property presumes regular data: every preprocessed block non-constant, enough rank
         Ebs = [c02.preprocess(b, scaling) for b in blocks]
